@@ -157,7 +157,11 @@ func c10Specs(tier string) []*seq.Spec {
 	_ = probes
 	d := *cfg
 	d.direct = true
-	return []*seq.Spec{msSpec("statecache", cfg, depth), msSpec("statecache-direct-writes", &d, depth-2)}
+	// present keys whose value is empty (index-style entries, as the by-chain node index writes them): present at a
+	// height is not the same as "has a non-empty value"
+	e := *cfg
+	e.keys, e.vals = keys[:2], [][]byte{{}, []byte("a")}
+	return []*seq.Spec{msSpec("statecache", cfg, depth), msSpec("statecache-direct-writes", &d, depth-2), msSpec("statecache-empty-values", &e, depth-2)}
 }
 
 // c10LongChains: chains long enough that cache slots are recycled (capacity 12).
